@@ -21,7 +21,7 @@ RULE = ("histories over all supported dtypes (int16/32/64, float16/32/64, long d
         "nothing; non-trivial = history with >= 2 distinct content dtypes and >= 1 weighted fill or mixed-dtype arithmetic; "
         "distinct by hash of the operation log")
 ASSUMPTIONS = [
-    "narrow integer overflow produced by numpy itself is kept out of the workload (small contents for int16)",
+    "silent integer wrap-around inside numpy arithmetic is kept out of the histories (small contents for int16); where the library itself sums (merge, marginals, running sums, weights) compact contents near the type's maximum are generated",
     "values are compared with a float64 shadow within the precision of the narrowest dtype involved",
 ]
 
